@@ -26,7 +26,7 @@ def plan(tier):
     base = {"case_time_limit": 240,
             "required_classes": ["complex-state", "mpdm", "bra!=ket", "duplicate-operators", "shared-prefix", "shared-suffix",
                                  "complex-operator", "coeff!=1", "unnormalised", "occupations-interleaved", "rdm", "entropy",
-                                 "long-chain", "output-ordering-permuted"],
+                                 "long-chain", "output-ordering-permuted", "own-config-truncating"],
             "required_counters": {"oracle": 2000, "cached_environments_used": 100}}
     if tier == "quick":
         base.update({"ncases": 256, "min_nontrivial": 100})
@@ -127,6 +127,16 @@ def make_state(ctx, gm, model, qntot, as_mpdm):
         tr.append("unnormalised")
     if abs(abs(mps.coeff) - 1) > 1e-12:
         ctx.cls("coeff!=1")
+    if rng.random() < 0.4:
+        # the state's own compression settings would truncate it (e.g. set for a coming propagation): no observable may
+        # depend on them
+        from renormalizer.utils import CompressConfig, CompressCriteria
+        if rng.random() < 0.5:
+            mps.compress_config = CompressConfig(CompressCriteria.fixed, max_bonddim=int(rng.integers(1, 3)))
+        else:
+            mps.compress_config = CompressConfig(CompressCriteria.threshold, threshold=float(rng.choice([0.3, 0.05])))
+        ctx.cls("own-config-truncating")
+        tr.append("own-config-truncating")
     if as_mpdm:
         mps = ctx.lib(MpDm.from_mps, mps, what="MpDm.from_mps")
         ctx.cls("mpdm")
